@@ -6,9 +6,9 @@ PROPS = ('C01',)
 
 
 def run(ctx):
-    ctx.rule = ('G: TLC-generated request table (ContainersGen) replayed on 39 container templates. V: random edit histories (every list-valued/optional/single field reachable x index class x code form '
-                '{source, AST, FST} x entry point x option set, pars in {auto, True}, norm in {default, True}) on 40 '
-                'corpus programs x 8 layout variants; after every step TLC evaluates Sync (pid of live tree = pid of '
+    ctx.rule = ('G: TLC-generated request table (ContainersGen) replayed on 43 container templates x argument layouts. V: random edit histories (every list-valued/optional/single field reachable x index class x code form '
+                '{source, AST, FST} x entry point x option set, pars in {auto, True}, norm in {default, True}) on 45 '
+                'corpus programs x 10 layout variants; (F) systematic deletions of every node x field of the corpus; after every step TLC evaluates Sync (pid of live tree = pid of '
                 'ast.parse(source): types, values, ctx, all four positions of every node) and RootIdentity. '
                 'distinct = distinct (kind, field, form, entry point, code form, outcome, bound kinds) tuples executed')
     ctx.assumptions += ['projection (harness/proj.py) is trusted; oracle = ast.parse of the whole source',
